@@ -35,7 +35,9 @@ from . import vcheck, instrument
 from .vcheck import VERIF, REPO, sh, Lock
 
 LK = VERIF / "ocaml" / "lk"
-ANCHORS = VERIF / "harness" / "sched" / "anchors.json"
+# VERIF_T2_ANCHORS: another yield-point table (experiments only: e.g. a table with one anchor broken, to see what a tree on which
+# a model label cannot be placed ends in)
+ANCHORS = Path(os.environ.get("VERIF_T2_ANCHORS") or (VERIF / "harness" / "sched" / "anchors.json"))
 SCENARIO_FILE = VERIF / "harness" / "sched" / "scenarios" / "lk.json"
 MODEL_LABELS = ["PEnter", "PGet", "PChkDel", "PTryAcq", "PAcqEnter", "PAcqWoken", "PAcqCancel", "PRelCancel", "PAddKey",
                 "PUnlChk", "PUnlRem", "PDone"]
@@ -675,9 +677,10 @@ def oracle_C01(run, hist=None):
 
 # ------------------------------------------------------------------------------------------------------- C02 oracle
 
-def linearizable(hist, gc_allowed, shutdown, transient_ok=False):
+def linearizable(hist, gc_allowed, shutdown, transient_ok=False, transient_for=None):
     """Wing-Gong search against the counting lock with keys (bits only: ok / not ok). Pending operations may or may not
-    take effect. transient_ok: a FAILED Lock may hold a unit during a sub-interval of its call (the F-LIN2 shape)."""
+    take effect. transient_ok: a FAILED Lock may hold a unit during a sub-interval of its call (the F-LIN2 shape);
+    transient_for: only these callers ("t<tid>": the Locks whose context the environment ended before they returned)."""
     ops = list(hist)
     n = len(ops)
     INF = float("inf")
@@ -761,7 +764,7 @@ def linearizable(hist, gc_allowed, shutdown, transient_ok=False):
                     return True
             if o.res is None and go(rem - {i}, st, phantom):
                 return True
-            if transient_ok and o.kind == "lock" and o.res is not None and not o.ok and o.size > 0:
+            if transient_ok and o.kind == "lock" and o.res is not None and not o.ok and o.size > 0 and (transient_for is None or o.who in transient_for):
                 d = dict(st)
                 obj = d.get(o.name)
                 if obj is not None and obj[0] == o.size and len(obj[1]) + obj[2] < obj[0]:
@@ -790,7 +793,14 @@ def oracle_C02(run, hist=None):
             bad.append((idx, "t%s released a unit that was not held (panic: %s): capacity was duplicated" % (f[0], unhx(f[1])), False))
     if not crashed:
         if not linearizable(hist, gc_allowed, shutdown):
-            shape = linearizable(hist, gc_allowed, shutdown, transient_ok=True)
+            # F-LIN2's signature, read off the REAL trace only: the history becomes linearizable when the failed Locks whose
+            # context was ended (a `cancel` item before their response) may hold a unit during part of their call
+            ended = set()
+            for o in hist:
+                if o.kind == "lock" and o.who.startswith("t") and o.res is not None and not o.ok:
+                    if any(f[0] == "cancel" and "t" + f[1] == o.who and k <= o.res for k, f in run.items):
+                        ended.add(o.who)
+            shape = bool(ended) and linearizable(hist, gc_allowed, shutdown, transient_ok=True, transient_for=ended)
             last = max([o.res for o in hist if o.res is not None] + [0])
             bad.append((last, "the history has no linearization against the counting lock: " + " | ".join(o.show() for o in hist if not o.tag or o.tag in ("release", "probe")), shape))
     blocked_names = set()
@@ -1113,9 +1123,29 @@ def oracle_selftest(prop, mruns, chk, acc):
     return acc
 
 
-def judge(prop, runs, chk, failures, compare=True, tp=None):
+def diverged(c, upto):
+    """The real run of a schedule is out of step with the model's at or before event `upto`: `lkdriver check` saw a difference there
+    (a thread parked at a window yield point in an exhibit run, and differences in the epilogue's calls, are not a divergence of the
+    schedule), or there is no verdict for the schedule at all."""
+    if not c or c.get("bad"):
+        return True
+    for k, kind, _who, text in c.get("diffs", []):
+        if kind == "epi" or (kind == "label" and "got=P_W" in text):
+            continue
+        if k <= upto:
+            return True
+    return False
+
+
+def judge(prop, runs, chk, failures, compare=True, tp=None, out_of_step=False):
     """-> dict(violations=[(sid, idx, text)], known=[(sid, text)], mismatches=[(sid, k, kind, text)], label_only=n, tp=statistics of the
-    extracted Coq trace predicates). compare=False: the runs are evaluated by the oracles only (sentinel yield points were parking:
+    extracted Coq trace predicates, unclassified=[(sid, idx, text)]).
+    The oracles read REAL observations only (responses, tables, probes, panics, the yield point a real goroutine is parked at). The
+    one judgement that reads the MODEL's ghost log is C02's: a history with F-LIN2's shape is the known finding when the model's run of
+    the same items has a LaGiveBack. That is only meaningful while the real run is in step with the model. out_of_step (a model label
+    could not be placed on this tree, or the yield points parked where the model has no step), or a difference between model and real
+    at or before the failure: the F-LIN2-shaped history is neither a known finding nor a real failing input: `unclassified` (the caller
+    reports a correspondence alarm). Every other oracle failure is model-independent and stays a real failing input. compare=False: the runs are evaluated by the oracles only (sentinel yield points were parking:
     the schedule is not the model's).
     tp: trace_predicates(...). A predicate of `prop` that is false on a real history satisfying the model's key assumption is a
     violation of `prop`. F-LIN2 (a Lock handed a unit after its context ended gives it back) cannot make one of them false: the
@@ -1123,7 +1153,7 @@ def judge(prop, runs, chk, failures, compare=True, tp=None):
     exemption here."""
     proj = PROJ.get(prop, {"bit", "table", "crash", "hang", "fatal"})
     oracle = ORACLES[prop]
-    viol, known, mism = [], [], []
+    viol, known, mism, unclassified = [], [], [], []
     label_only = 0
     tps = dict(histories=0, events=0, outside_key_assumption=0, unreadable=0, evaluated={}, false={}, false_outside_key_assumption={},
                python_oracle_failed=0, python_oracle_and_predicate_failed=0, predicate_failed_only=0)
@@ -1133,7 +1163,9 @@ def judge(prop, runs, chk, failures, compare=True, tp=None):
         py_fail = False
         n_before = len(viol)
         for v in oracle(run, hist):
-            if prop == "C02" and len(v) > 2 and v[2] and c.get("giveback"):
+            if prop == "C02" and len(v) > 2 and v[2] and (out_of_step or diverged(c, v[0])):
+                unclassified.append((sid, v[0], v[1]))
+            elif prop == "C02" and len(v) > 2 and v[2] and c.get("giveback"):
                 known.append((sid, v[1]))
             else:
                 viol.append((sid, v[0], v[1]))
@@ -1187,7 +1219,7 @@ def judge(prop, runs, chk, failures, compare=True, tp=None):
     if compare:
         for f in failures:
             mism.append((f["sid"], f["k"], f["kind"], f["text"][-600:]))
-    return dict(violations=viol, known=known, mismatches=mism, label_only=label_only, tp=tps)
+    return dict(violations=viol, known=known, mismatches=mism, label_only=label_only, tp=tps, unclassified=unclassified)
 
 
 def run_property(ctx, prop, scenarios=None, tier=None, procs=8):
@@ -1233,7 +1265,9 @@ def run_property(ctx, prop, scenarios=None, tier=None, procs=8):
     for k, v in e["reached"].items():
         reached[k] = reached.get(k, 0) + v
     n_compare = len(runs)
-    j = judge(prop, runs, chk, failures, tp=tp)
+    # a model label that could not be placed: every real run is out of step with the model
+    oos = any(m.get("label") in MODEL_LABELS or str(m.get("label", "")).startswith(("GcShard", "*")) for m in ins["missing"])
+    j = judge(prop, runs, chk, failures, tp=tp, out_of_step=oos)
     # exhibit runs: asynchronous items at the window yield points the comparison run went through (windows parking)
     tx = time.time()
     rng = random.Random("%s/%s/exhibit" % (int(ctx.seed), prop))
@@ -1273,8 +1307,9 @@ def run_property(ctx, prop, scenarios=None, tier=None, procs=8):
             xchk.update({"x:" + k: v for k, v in e3["chk"].items()})
             xtp.update({"x:" + k: v for k, v in e3["tp"].items()}); tp_wall += e3["tp_wall"]
             x_dirs += e3["dirs"]
-    j2 = judge(prop, {k: v for k, v in xruns.items() if not k.startswith("x:")}, xchk, xfail, tp=xtp)
-    j3 = judge(prop, {k: v for k, v in xruns.items() if k.startswith("x:")}, xchk, [], compare=False, tp=xtp)
+    j2 = judge(prop, {k: v for k, v in xruns.items() if not k.startswith("x:")}, xchk, xfail, tp=xtp, out_of_step=oos)
+    j3 = judge(prop, {k: v for k, v in xruns.items() if k.startswith("x:")}, xchk, [], compare=False, tp=xtp, out_of_step=True)
+    j["unclassified"] += j2["unclassified"] + j3["unclassified"]
     # the extracted Coq trace predicates (Model/LkTrace.v) on the real histories: comparison runs + exhibit runs + reruns
     tps = {}
     for j_ in (j, j2, j3):
@@ -1365,6 +1400,12 @@ def run_property(ctx, prop, scenarios=None, tier=None, procs=8):
                 ctx.violation({"broken": "instrumentation", "unplaced_yield_points": missing, "sentinels_placed": sent, "log": ins["log"]},
                               "the code no longer has the shape the model was written against (%s); no failing real trace was found"
                               % ", ".join([m["id"] for m in missing] + sent), name="t2_unplaced_hooks.json", no_failing_input=True)
+            elif j["unclassified"]:
+                sid, idx, text = j["unclassified"][0]
+                ctx.violation(_replay_obj(prop, runs[sid], text, chk.get(sid), {"unclassified": len(j["unclassified"])}),
+                              "%d history(ies) with F-LIN2's shape on schedules whose real run is out of step with the model (first: %s): the model's ghost "
+                              "log cannot tell the known finding from a new defect there; no model-independent judgement failed"
+                              % (len(j["unclassified"]), sid), name="t2_unclassified_%s.json" % sid.replace("#", "_").replace(":", "_"), no_failing_input=True)
     n_items = sum(len(r.items) for r in runs.values())
     distinct = len(set(tuple(" ".join(f) for _, f in r.items) for r in runs.values()))
     tie.update({
@@ -1375,6 +1416,7 @@ def run_property(ctx, prop, scenarios=None, tier=None, procs=8):
         "preemption_bound": max([g["bound"] for g in gstats.values()] + [0]),
         "mismatches_in_projection": len(j["mismatches"]), "schedules_differing_in_labels_only": j["label_only"], "projection": sorted(PROJ.get(prop, [])), "schedules_failing_oracle": len(set(v[0] for v in j["violations"])),
         "known_finding_reproductions": len(j["known"]), "hangs_or_fatal": len(failures), "yield_points_placed": len(ins["placed"]),
+        "flin2_shaped_histories_unclassified_out_of_step": len(j["unclassified"]), "model_label_hooks_missing": bool(oos),
         "gc_pass_label_differences": sum(1 for c_ in chk.values() if any(d[2] == str(GC_TID0) or (d[2].isdigit() and int(d[2]) >= GC_TID0) for d in c_.get("diffs", []))),
         "yield_points_missing": [m["id"] for m in missing], "sentinels_placed": ins["sentinels"], "oracle": prop,
         "incomplete_schedules": sum(1 for r in runs.values() if not r.complete), "schedules_abandoned_after_repeated_hangs": e.get("abandoned", 0), "wall_s": round(time.time() - t0, 1)})
@@ -1418,7 +1460,8 @@ def replay(ctx, prop, path):
     cf = b["work"] / "replay.txt"
     cf.write_text(corpus_text(c))
     e = execute(ctx, b, cf, "replay", procs=1, xpark=c.get("xpark", "1"))
-    j = judge(prop, e["runs"], e["chk"], e["failures"], compare=True, tp=e.get("tp"))
+    oos = any(m.get("label") in MODEL_LABELS or str(m.get("label", "")).startswith(("GcShard", "*")) for m in b["instr"]["missing"]) or c.get("xpark") == "1"
+    j = judge(prop, e["runs"], e["chk"], e["failures"], compare=True, tp=e.get("tp"), out_of_step=oos)
     for r in e["runs"].values():
         print("\n".join(r.raw))
     for sid, idx, text in j["violations"][:3]:
